@@ -1042,7 +1042,7 @@ class VM:
         cond = row.get("condition")
         tail = []
         for r in reversed(inner_rows):
-            if r.get("operation") in ("assign_stmt", "call_stmt", "field_read", "array_read", "object_call_stmt") and \
+            if r.get("operation") in ("assign_stmt", "field_read", "array_read") and \
                isinstance(r.get("target"), str) and r.get("target").startswith("%"):
                 tail.append(r)
             else:
